@@ -1321,11 +1321,11 @@ func runC12(tier string, seed int64, outdir string, replay string) error {
 		{"corpus", c12Hist{Cap: 0, Ops: []c12Op{{Kind: "add", Cert: c12P("h3")}, {Kind: "ari", Cert: c12P("h3"), Inner: &c12Op{Kind: "rmcert", Cert: c12P("h3")}}}}},
 		{"corpus", c12Hist{Cap: 0, Ops: []c12Op{{Kind: "add", Cert: h2}, {Kind: "ocspmaint", Inner: &c12Op{Kind: "rmmanaged", Subjects: [][2]string{{"b.x", ""}}}}}}},
 		{"corpus", c12Hist{Cap: 2, Ops: []c12Op{{Kind: "add", Cert: c12P("h4", "t1")}, {Kind: "add", Cert: c12P("h8")}, {Kind: "add", Cert: c12P("h4", "t2")}, {Kind: "add", Cert: c12P("h1")}, {Kind: "remove", Hashes: []string{"h4", "h8", "h1"}}}}},
-		// fixed finding C12-capacity-lowered (3f6f771): the witness of C12_within_capacity_refuted_when_lowered
+		// fixed finding C12-capacity-lowered (4af396d): the witness of C12_within_capacity_refuted_when_lowered
 		{"capacity-lowered", c12Hist{Cap: 0, Ops: []c12Op{add("h1"), add("h2"), add("h3"), setcap(1), add("h4")}}},
 		{"capacity-lowered", c12Hist{Cap: 3, Ops: []c12Op{add("h1"), add("h2"), add("h3"), setcap(2), {Kind: "query", Name: "a.x"}, setcap(0), add("h4"), add("h5"), setcap(1), add("h6"), setcap(-2), add("h7")}}},
 		{"capacity-lowered", c12Hist{Cap: 0, Ops: []c12Op{add("h4"), add("h6"), add("h8"), add("h2"), setcap(2), {Kind: "remove", Hashes: []string{"h4", "h6", "h8", "h2"}}}}},
-		// fixed finding C12-stale-writeback-drops-tags (ff0fef7): tags merged while a handshake refreshes the staple stay
+		// fixed finding C12-stale-writeback-drops-tags (12d489e): tags merged while a handshake refreshes the staple stay
 		{"stale-writeback-tags", c12Hist{Cap: 0, Ops: []c12Op{add("h2", "t1"), {Kind: "hsmaint", Cert: staleT, Inner: &c12Op{Kind: "add", Cert: c12P("h2", "t5")}}, {Kind: "renewmaint"}}}},
 		{"stale-writeback-tags", c12Hist{Cap: 0, Ops: []c12Op{add("h2", "t1"), {Kind: "hsmaint", Cert: staleT, Inner: &c12Op{Kind: "ari", Cert: c12P("h2")}}, {Kind: "ocspmaint", Inner: &c12Op{Kind: "add", Cert: c12P("h2", "t6")}}}}},
 		// Stop; the maps stay and can still be operated on
